@@ -45,7 +45,15 @@ func (a *AzimuthalEquidistant) Forward(lonLat geom.XY) geom.XY {
 	λ0r := dtor(a.centerLonLat.X)
 	φ0r := dtor(a.centerLonLat.Y)
 
-	ρ := R * acos(sin(φ0r)*sin(φr)+cos(φ0r)*cos(φr)*cos(λr-λ0r))
+	// The angular distance from the center is computed via atan2 rather than
+	// acos of the cosine alone. The latter is ill-conditioned near the center
+	// (and gives NaN when rounding pushes the cosine above 1).
+	var (
+		sinc = sqrt(sq(cos(φr)*sin(λr-λ0r)) +
+			sq(cos(φ0r)*sin(φr)-sin(φ0r)*cos(φr)*cos(λr-λ0r)))
+		cosc = sin(φ0r)*sin(φr) + cos(φ0r)*cos(φr)*cos(λr-λ0r)
+	)
+	ρ := R * atan2(sinc, cosc)
 	θ := atan2(
 		cos(φr)*sin(λr-λ0r),
 		cos(φ0r)*sin(φr)-sin(φ0r)*cos(φr)*cos(λr-λ0r),
